@@ -81,21 +81,15 @@ class Fragment(AbstractApplication):
             # no fragmentation
             return
 
-        # take the payload data to fragment it
+        # use the payload data to fragment it
         pyld_blk = ctr.block_num(Bundle.BLOCK_NUM_PAYLOAD)
         payload_data = pyld_blk.getfieldval('btsd')
-        pyld_blk.delfieldval('btsd')
         payload_size = len(payload_data)
         LOGGER.info('Payload data size %d', payload_size)
         # maximum size of each fragment field
         pyld_size_enc = len(cbor2.dumps(payload_size))
 
-        # two encoded sizes for fragment, one for payload bstr head
-        non_pyld_size = orig_size - payload_size + 3 * pyld_size_enc
-        LOGGER.info('Non-payload size %d', non_pyld_size)
-        if non_pyld_size > mtu:
-            raise RuntimeError('Non-payload size {} too large for route MTU {}'.format(orig_size, mtu))
-
+        fragments = []
         frag_offset = 0
         while frag_offset < len(payload_data):
             fctr = BundleContainer()
@@ -108,7 +102,12 @@ class Fragment(AbstractApplication):
                 if (frag_offset == 0
                     or blk.block_flags & CanonicalBlock.Flag.REPLICATE_IN_FRAGMENT
                         or blk.block_num == Bundle.BLOCK_NUM_PAYLOAD):
-                    fctr.bundle.blocks.append(blk.copy())
+                    fblk = blk.copy()
+                    if blk.block_num == Bundle.BLOCK_NUM_PAYLOAD:
+                        # only the block itself, a received one has parsed data
+                        fblk.remove_payload()
+                        fblk.setfieldval('btsd', b'')
+                    fctr.bundle.blocks.append(fblk)
             # ensure full size (with zero-size payload)
             fctr.reload()
             fctr.bundle.fill_fields()
@@ -117,17 +116,29 @@ class Fragment(AbstractApplication):
             # zero-length payload has one-octet encoded bstr head
             frag_size = mtu - (non_pyld_size - 1 + pyld_size_enc)
             if frag_size <= 0:
-                raise RuntimeError('Payload size {} too large for route MTU {}'.format(frag_size, mtu))
+                # nothing is sent, neither the fragments so far nor the original
+                ctr.route = None
+                ctr.sender = None
+                raise RuntimeError('Non-payload size {} too large for route MTU {}'.format(non_pyld_size, mtu))
 
             LOGGER.info('Fragment non-payload size %d, offset %d, (max) size %d', non_pyld_size, frag_offset, frag_size)
             frag_data = payload_data[frag_offset:(frag_offset + frag_size)]
             frag_offset += frag_size
 
             fctr.block_num(Bundle.BLOCK_NUM_PAYLOAD).setfieldval('btsd', frag_data)
+            fragments.append(fctr)
 
+        if not fragments:
+            # an empty payload cannot be split, fail like any other too-large
+            ctr.route = None
+            ctr.sender = None
+            raise RuntimeError('Non-payload size {} too large for route MTU {}'.format(orig_size, mtu))
+
+        for fctr in fragments:
             glib.idle_add(self._agent.send_bundle, fctr)
 
         # internal action, not delete
+        ctr.record_action('fragment')
         ctr.route = None
         ctr.sender = None
         return True
